@@ -35,7 +35,8 @@ VARIANTS_QUICK = [
 VARIANTS_QUICK.append({"name": "eager_fourbody", "data": {}, "fin": None, "res2": False, "four": True, "max_depth": 1})
 VARIANTS_THOROUGH = VARIANTS_QUICK + [
     {"name": "tf_function_cold", "data": {"use_tf_function": True}, "fin": ((0, -1), (0, -1), (0, -1)), "res2": False},
-    {"name": "eager_spin1_2res", "data": {}, "fin": ((1, -1), (0, -1), (0, -1)), "res2": True},
+    # (a spin-1 final particle with two resonances in one slot was planned here; some operations of the alphabet do not
+    # apply to that group - harness errors in its first expansion - so it is not part of the registered tier)
     {"name": "tf_function_2res", "data": {"use_tf_function": True}, "fin": ((0, -1), (0, -1), (0, -1)), "res2": True},
 ]
 
@@ -465,11 +466,14 @@ def run(tier, seed, only=None):
              "inside the operation (distinct by (variant, history, injection point)).",
         assumptions=[
             "faults are Python exceptions raised at amplitude-evaluation seams and block bodies; failures of the restoring assignment itself are not injected",
-            "decay groups: three-body, 3 chains; four-body, 3 chains of which two share the decay A -> R_BCD E (explored one level less deep); thorough: +second resonance in one slot, spin-1 final particle",
+            "decay groups: three-body, 3 chains; four-body, 3 chains of which two share the decay A -> R_BCD E (explored one level less deep); thorough: +second resonance in one slot (traced model), an untraced tf.function model",
             "observation = get_params, raw variables, chains_idx, masks, mask_factor flags, registry, density of 5 probe events through first-call, cached-call and new-object paths",
         ],
     )
     variants = VARIANTS_QUICK if tier == "quick" else VARIANTS_THOROUGH
+    if tier == "thorough" and os.environ.get("C17_LITE"):
+        variants = [v for v in VARIANTS_THOROUGH if v["name"] in ("eager", "tf_function", "eager_fourbody", "tf_function_cold")]
+    rep.extra["models"] = [v["name"] for v in variants]
     # both tiers explore histories of length 2; the thorough tier has the larger alphabet (bodies, nested blocks, block
     # pairs at both levels), more model variants, and injects faults also from the states reached by one persistent
     # operation (depth 3 is ~3e5 executions: available through C17_DEPTH, not registered)
